@@ -28,7 +28,10 @@ var smallFlts = []float64{0, 1, 2, 3, -1, 1.5, -0.25, 2.75, 128, 0.125, 16777216
 var bigInts = []int64{1 << 53, 1<<53 + 1, 1<<53 + 2, 1<<53 + 3, -(1 << 53) - 1, 1<<53 - 1, 1 << 62, 1<<62 + 1, 1<<62 + 512, 1<<62 + 513,
 	math.MaxInt64, math.MaxInt64 - 1, math.MaxInt64 - 511, math.MaxInt64 - 512, math.MaxInt64 - 1024, math.MinInt64, math.MinInt64 + 1, math.MinInt64 + 1025,
 	1 << 54, 1<<54 + 2, 1<<54 + 6, 1e18, 1e18 + 1}
-var bigFlts = []float64{1 << 53, 1<<53 + 2, 1<<53 + 4, -(1 << 53), -(1 << 53) - 2, 1<<53 - 1, 1 << 62, 1<<62 + 1024, 1 << 63, -(1 << 63), 1 << 64, 1e19, 1e18,
+// unsigned values that no int64 holds
+var bigUints = []uint64{1 << 63, 1<<63 + 1, 1<<63 + 5, 1<<63 + 2048, math.MaxUint64, math.MaxUint64 - 1, math.MaxUint64 - 2047, 1<<63 + 1<<62}
+
+var bigFlts = []float64{9223372036854777856, 18446744073709549568, 13835058055282163712, 1 << 53, 1<<53 + 2, 1<<53 + 4, -(1 << 53), -(1 << 53) - 2, 1<<53 - 1, 1 << 62, 1<<62 + 1024, 1 << 63, -(1 << 63), 1 << 64, 1e19, 1e18,
 	1 << 54, 1<<54 + 4, 1<<54 + 8, 9223372036854774784, -9223372036854774784, 2251799813685248.5, 1e300, -1e300, math.Copysign(0, -1)}
 
 type treeGen struct {
@@ -50,6 +53,9 @@ func (g *treeGen) atom() *T {
 		return &T{K: KStr, S: lib.Pick(r, strAlphabet)}
 	case 10:
 		if r.Intn(3) == 0 {
+			if r.Intn(4) == 0 {
+				return uT(lib.Pick(r, bigUints))
+			}
 			return &T{K: KInt, I: lib.Pick(r, bigInts)}
 		}
 		return &T{K: KInt, I: int64(r.Intn(7)) - 3}
@@ -114,6 +120,9 @@ func (g *treeGen) tree(depth int) *T {
 func ratOf(t *T) *big.Rat {
 	switch t.K {
 	case KInt:
+		if t.Uns {
+			return new(big.Rat).SetInt(new(big.Int).SetUint64(t.U))
+		}
 		return new(big.Rat).SetInt64(t.I)
 	case KFlt:
 		return new(big.Rat).SetFloat64(t.F)
@@ -240,11 +249,16 @@ func (g *treeGen) perturb(a *T, k int) (*T, []Path) {
 		case op == 4 && (old.K == KInt || old.K == KFlt): // same number, other kind
 			if old.K == KInt {
 				f := float64(old.I)
-				if new(big.Rat).SetFloat64(f).Cmp(new(big.Rat).SetInt64(old.I)) == 0 {
+				if old.Uns {
+					f = float64(old.U)
+				}
+				if new(big.Rat).SetFloat64(f).Cmp(ratOf(old)) == 0 {
 					set(&T{K: KFlt, F: f})
 				}
 			} else if old.F == math.Trunc(old.F) && old.F >= -(1<<63) && old.F < 1<<63 {
 				set(&T{K: KInt, I: int64(old.F)})
+			} else if old.F >= 1<<63 && old.F < 1<<64 {
+				set(uT(uint64(old.F)))
 			}
 		case op == 5: // another kind of container, or a container for an atom
 			var nt *T
@@ -260,7 +274,7 @@ func (g *treeGen) perturb(a *T, k int) (*T, []Path) {
 			var nt *T
 			for {
 				nt = g.atom()
-				if old.K == KInt && r.Intn(4) == 0 { // a near miss
+				if old.K == KInt && !old.Uns && r.Intn(4) == 0 { // a near miss
 					nt = &T{K: lib.Pick(r, []Kind{KInt, KFlt}), I: old.I + 1, F: float64(old.I) + 0.5}
 				}
 				if !atomEquiv(old, nt) {
